@@ -1,2 +1,3 @@
 import HvLatSpec.Model.Tombstone
 import HvLatSpec.Model.Lattice
+import HvLatSpec.Model.UnionFind
